@@ -203,5 +203,23 @@ def pspecRun : List α → List (POp α) → Option (List α)
   | s, op :: ops => (pspecStep s op).bind fun s' => pspecRun s' ops
 
 
+/-- the `std::list` contract of `splice(pos, *this, it)` -/
+def specMove (s : List α) (pidx sidx : Nat) : Option (List α) :=
+  match s[sidx]? with
+  | none => none
+  | some x =>
+    if pidx ≤ s.length then
+      let t := s.take sidx ++ s.drop (sidx + 1)
+      let k := if pidx ≤ sidx then pidx else pidx - 1
+      some (t.take k ++ x :: t.drop k)
+    else none
+
+/-- what the harness calls: both iterators are found by walking from `begin()` -/
+def pmove (h : PHeap α) (l : PL) (pidx sidx : Nat) : Option (PHeap α × PL) :=
+  match posAt h l pidx, (nodesOf h l)[sidx]? with
+  | some p, some t => splice h l p t
+  | _, _ => none
+
+
 end PL
 end XalanModel.Containers
